@@ -237,19 +237,6 @@ def gen_type_lemmas2(meta):
     sin_lets, sin_g = tab_g("sin")
     cos_lets, cos_g = tab_g("cos")
     wrapx = lambda e: "({ let x = x_re; " + sin_lets + e + " })"  # noqa: E731
-    # tan: Y (x) cos(X) == sin(X)
-    if have("tan"):
-        Y = G.mjet("tan", [X])
-        Cj = G.slift_jet(X, cos_g)
-        L("tan", reals(X), ["cos_r(x_re) != 0real", "cos_r(x_re) * recip_r(cos_r(x_re)) == 1real"],
-          [wrapx(f"{G.smul(p, Y, Cj)} == {G.slift(p, X, sin_g)}") for p in outs], ["C01", "C03"], "tan: Y (x) cos(X) == sin(X) as jets (Y = sin X / cos X)")
-    if have("tanh"):
-        sl, sg = tab_g("sinh")
-        cl, cg = tab_g("cosh")
-        Y = G.mjet("tanh", [X])
-        Cj = G.slift_jet(X, cg)
-        L("tanh", reals(X), ["cosh_r(x_re) != 0real", "cosh_r(x_re) * recip_r(cosh_r(x_re)) == 1real"],
-          ["({ let x = x_re; " + sl + f"{G.smul(p, Y, Cj)} == {G.slift(p, X, sg)}" + " })" for p in outs], ["C01", "C03"], "tanh: Y (x) cosh(X) == sinh(X) as jets")
     if have("sin_cos"):
         ens = []
         for p in outs:
@@ -347,6 +334,33 @@ def gen_type_lemmas2(meta):
         return r
 
     idx = {l: i for i, l in enumerate(leaves)}
+    # tan = sin/cos, tanh = sinh/cosh: Y (x) cos(X) == sin(X) by chaining the sin_cos / sinh / cosh lemmas and the quotient lemma
+    if have("tan") and have("sin_cos") and have("div_oo"):
+        state["calls"] = []
+        Sm = bind(G.mjet("sin_cos", [X], prefix="0_"))
+        Cm = bind(G.mjet("sin_cos", [X], prefix="1_"))
+        call("sin_cos", [X])
+        binop("div", "oo", Sm, Cm)
+        Y = G.mjet("tan", [X])
+        ens = [f"{G.smul(p, Y, Cx)} == {Sx[idx[p]]}" for p in outs]
+        hy = ["cos_r(x_re) != 0real", "cos_r(x_re) * recip_r(cos_r(x_re)) == 1real"]
+        L("tan", reals(X), hy, ens, ["C01", "C03"], "tan: Y (x) cos(X) == sin(X) as jets (Y = sin X / cos X)", body=" ".join(state["calls"]), mode="root")
+    if have("tanh") and have("sinh") and have("cosh") and have("div_oo"):
+        state["calls"] = []
+        sl, sg = tab_g("sinh")
+        cl, cg = tab_g("cosh")
+        wraph = lambda e: "({ let x = x_re; " + sl + e + " })"  # noqa: E731
+        Sh = [wraph(e) for e in G.slift_jet(X, sg)]
+        Ch = [wraph(e) for e in G.slift_jet(X, cg)]
+        Sm = bind(G.mjet("sinh", [X]))
+        call("sinh", [X])
+        Cm = bind(G.mjet("cosh", [X]))
+        call("cosh", [X])
+        binop("div", "oo", Sm, Cm)
+        Y = G.mjet("tanh", [X])
+        ens = [f"{G.smul(p, Y, Ch)} == {Sh[idx[p]]}" for p in outs]
+        hy = ["cosh_r(x_re) != 0real", "cosh_r(x_re) * recip_r(cosh_r(x_re)) == 1real"]
+        L("tanh", reals(X), hy, ens, ["C01", "C03"], "tanh: Y (x) cosh(X) == sinh(X) as jets", body=" ".join(state["calls"]), mode="root")
     if have("sph_j0") and have("sin") and have("div_or"):
         state["calls"] = []
         Sm = bind(G.mjet("sin", [X]))
